@@ -18,7 +18,7 @@ func init() {
 			" Numeric literals are evaluated by strconv.ParseFloat alone; the string scanner advances exactly one unconditional byte per step; EOF is produced only under atEnd(); the statement-end test answers true as soon as a newline was seen; a prefix operator takes its operand from the precedence-climbing function on every path." +
 			" A statement end that was found (a consumed ';') is recorded before the parsing function returns; Lexer.src is the caller's text unchanged." +
 			" An answer of the statement-end test is never dropped." +
-			" Every successful advance clears the newline flag before it may set it.",
+			" Every successful advance clears the newline flag before it may set it. After a statement end is recorded no cursor move follows; the parser's entry points into the lexer are Next and Regex.",
 		notDecided: "where exactly the parser lets a newline end a statement (it depends on the dynamic didEndStatement flag across calls); only the structural clause that the flag is consulted at statement boundaries alone is decided.",
 	})
 }
@@ -1044,6 +1044,34 @@ func c13NewlineFlag(c *Ctx) {
 		}
 		if nSet < 3 {
 			c.undecided("R6", "statement-end-kept", "", fmt.Sprintf("%d stores of `didEndStatement = true` outside advance found, 4 confirmed by hand", nSet))
+		}
+	}
+	// the parser gets its tokens from Lexer.Next (through advance, which handles line breaks) and, for a
+	// regex literal, from Lexer.Regex; the other lexer methods it calls only read (GetString,
+	// GetLineAndCol, error). A further scan-on-request entry point (`MemberName`) bypasses the handling of
+	// line breaks in advance: a newline is then not interchangeable with a blank at that place
+	{
+		okLex := map[string]bool{"(*lang.Lexer).Next": true, "(*lang.Lexer).Regex": true, "(*lang.Lexer).GetString": true, "(*lang.Lexer).GetLineAndCol": true, "(*lang.Lexer).error": true}
+		nLex := 0
+		for _, f := range p.Funcs {
+			if !p.InLang(f) || p.inTestFile(f) {
+				continue
+			}
+			isParserFn := (f.Signature.Recv() != nil && strings.Contains(f.Signature.Recv().Type().String(), "Parser")) || (f.Parent() == nil && isParselet(f))
+			if !isParserFn {
+				continue
+			}
+			for _, call := range callsIn(f) {
+				g := call.Common().StaticCallee()
+				if g == nil || g.Signature.Recv() == nil || !strings.Contains(g.Signature.Recv().Type().String(), "Lexer") {
+					continue
+				}
+				nLex++
+				c.check(okLex[shortName(g)], "R6", "parser-lexer-entry "+shortName(g)+" from "+shortName(f), p.InstrPos(call), "a documented entry point of the lexer", "the parser calls "+shortName(g)+", a lexer entry point besides Next and Regex: tokens scanned on request do not pass advance(), which is where line breaks between tokens are handled")
+			}
+		}
+		if nLex < 4 {
+			c.undecided("R6", "parser-lexer-entry", "", fmt.Sprintf("%d calls of lexer methods from the parser found, 5 confirmed by hand", nLex))
 		}
 	}
 	allowed := map[string]bool{"(*lang.Parser).block": true, "(*lang.Parser).statement": true, "(*lang.Parser).printStatement": true}
